@@ -232,7 +232,28 @@ func runC04(c *Ctx) {
 		pos := p.Rel(cl.un.Pos())
 		// completeness before verdict: if part of the codec escaped the extractor
 		// (cursor type, closures, a phase split into another method) nothing is compared
-		if why := incompleteCodec(w, cl.marshal, cl.un); why != "" {
+		why := incompleteCodec(w, cl.marshal, cl.un)
+		if why == "" {
+			nDec := len(flatten(cl.decP)) + len(flatten(cl.decD))
+			for _, v := range cl.decOther {
+				nDec += len(flatten(v))
+			}
+			nEnc := len(flatten(cl.encP)) + len(flatten(cl.encD))
+			if nDec == 0 && nEnc > 0 {
+				why = "Unmarshal: no read of the parameter or data bytes was recognised (the input is walked in a form the extractor does not follow)"
+			}
+			for k := range cl.decOther {
+				// fields read from another view of the input than Parameters.GetBytes() / Data.GetBytes()
+				// (the raw message bytes re-sliced by the consumed counts): offsets are not comparable
+				why = "Unmarshal reads its fields from " + k + ", a buffer that is neither the parameter nor the data block"
+			}
+			for _, a := range append(flatten(cl.encP), flatten(cl.encD)...) {
+				if a.Kind == "nested" && a.Field == "" && a.Callee != nil && a.Callee.Signature.Recv() == nil {
+					why = "Marshal: bytes are produced by the helper " + a.Callee.Name() + ", which is not followed"
+				}
+			}
+		}
+		if why != "" {
 			for _, rule := range []string{"extract", "sym", "contig", "decl"} {
 				for _, stream := range []string{" params", " data"} {
 					if rule == "decl" && stream == " data" {
